@@ -31,9 +31,9 @@ def run(ctx):
     ep = os.path.join(ctx.scratch, "edges.json")
     write_json(ep, edges)
     ctx.drive(drv, ["-mode", "edges", "-in", ep, "-pad", 0, "-nib", "0,1,15", "-keylen", 2], name="c06-edges", timeout=T)
-    # R: every 4-entry batch over a pool of 8 operations from every state over the pool keys
+    # R: every 4-entry batch over a pool of 6 (thorough: 8) operations from every state over the pool keys
     # (concurrent mode and every fallback condition)
-    res = ctx.model_check("trie/MCTrie", "trie/MCTrieEdgesBatch", tags=("EDGE",), timeout=T, workers=4, name="MCTrieEdgesBatch")
+    res = ctx.model_check("trie/MCTrie", ctx.pick("trie/MCTrieEdgesBatch", "trie/MCTrieEdgesBatchThorough"), tags=("EDGE",), timeout=T, workers=4, name="MCTrieEdgesBatch")
     bedges = parse_edges(res)
     if not bedges:
         raise InfraError("no batch edges emitted")
@@ -55,7 +55,7 @@ def run(ctx):
                           {"kind": "race", "driver": "c06-batch-edges-race", "seed": ctx.seed, "tier": ctx.tier,
                            "report_head": open(reports[0]).read()[:3000]})
     # R: simulated behaviours with batches above/below the threshold, 2-byte and 32-byte keys
-    for cfg, pad, nib, num, depth in ctx.pick([("trie/MCTrieSim", 1, "0,1,15", 25, 160)],
+    for cfg, pad, nib, num, depth in ctx.pick([("trie/MCTrieSim", 1, "0,1,15", 15, 160)],
                                               [("trie/MCTrieSim", 1, "0,1,15", 300, 160), ("trie/MCTrieSimThorough", 61, "0,1,2,15", 200, 260)]):
         sim = ctx.tlc("trie/MCTrie", cfg, simulate="num=%d" % num, depth=depth, tags=("MBT",), timeout=T, workers=4, name=os.path.basename(cfg))
         if sim.timeout or sim.error:
